@@ -44,6 +44,13 @@
    refused), for read / read-to-end / write / get / put / copy with explicit
    and default block sizes: ReadComplete, ShortReadContinued, AllOrError;
    "a single READ whenever size <= block size" must be rejected.
+8. specs/SftpIO/CopyData.tla models the ranged copy the server does for the
+   copy-data extension, one block per step (source size, read offset, length
+   0 / below / at / beyond what is left and multiples of the block, write
+   offset inside / at / beyond the destination, same file): CopyExact,
+   ChunkProgress; "0 left means to the end" and "no progress at EOF" must be
+   rejected.  Every row goes to the real server (block size scaled) through a
+   raw client under a CPU-time watchdog and through remote_copy().
 2. Behaviours sampled by TLC (-simulate) are replayed into the REAL client
    (SFTPClientFile.read/write, SFTPClient.get/put/copy) against a scripted
    SFTP server that holds every READ/WRITE and answers in the behaviour's
@@ -402,6 +409,24 @@ def fileobj_replay(ctx, simdir, rnd):
                 f'file object sample too thin: {stats}')
 
 
+def copydata_variant(name, kw, inv):
+    """A sensitivity run of specs/SftpIO/CopyData.tla"""
+    d = dict(B=2, MaxS=5, ZeroMeansToEnd='FALSE', NoProgressAtEof='FALSE',
+             Emit='FALSE')
+    d.update(kw)
+    cfg = f'_c12_cd_{name}.cfg'
+    with open(os.path.join(SPEC, cfg), 'w') as f:
+        f.write('CONSTANTS\n' + ''.join(f'  {k} = {v}\n'
+                                         for k, v in d.items()) +
+                f'SPECIFICATION Spec\nINVARIANT {inv}\n')
+    try:
+        return tlc.run(SPEC, 'CopyData', cfg, f'c12_cd_{name}', workers=2,
+                       timeout=600, java_heap='2g')
+    finally:
+        tlc.cleanup(f'c12_cd_{name}')
+        os.remove(os.path.join(SPEC, cfg))
+
+
 def limits_tlc(name, invs, **kw):
     """One TLC run of specs/SftpIO/Limits.tla"""
     d = dict(Emit='FALSE', SingleReadAboveLimit='FALSE')
@@ -484,7 +509,7 @@ def trace_validation(ctx, sftp_io, quick):
     from its own task, i.e. out of order) are validated by TLC against
     SftpIO.tla (specs/SftpIO/SftpIOTrace.tla)."""
     import copy
-    n = 48 if quick else 1200
+    n = 40 if quick else 1200
     recs = []
     stats = {'out_of_order': 0, 'batches>1': 0, 'untraced': 0, 'skipped': 0}
     for i in range(n):
@@ -843,7 +868,7 @@ def main(ctx):
             'emit': ex.submit(tree_tlc, 'emit', ['Table'], workers=1,
                               seed=ctx.seed + 5, Emit='TRUE',
                               # a sample of trees x a sample of flag sets
-                              NTrees=125 if quick else 0,
+                              NTrees=100 if quick else 0,
                               NFlags=4 if quick else 40),
         }
         # the file object (specs/SftpIO/FileObj.tla)
@@ -868,6 +893,14 @@ def main(ctx):
                                       f'{110 if quick else 2500}',
                              depth=6, seed=ctx.seed * 10 + 9),
         }
+        # the ranged server-side copy (specs/SftpIO/CopyData.tla)
+        from harness.drivers import sftp_copydata
+        f_cd = {'table': ex.submit(sftp_copydata.table)}
+        for nm, kw, inv in (('zero', dict(ZeroMeansToEnd='TRUE'),
+                             'CopyExact'),
+                            ('noprog', dict(NoProgressAtEof='TRUE'),
+                             'ChunkProgress')):
+            f_cd[nm] = ex.submit(copydata_variant, nm, kw, inv)
         # the server's limits (specs/SftpIO/Limits.tla)
         lim_invs = ['ReadComplete', 'ShortReadContinued', 'AllOrError']
         f_lim = {
@@ -898,6 +931,7 @@ def main(ctx):
         sparse_res = {k: f.result() for k, f in f_sparse.items()}
         fo_res = {k: f.result() for k, f in f_fo.items()}
         lim_res = {k: f.result() for k, f in f_lim.items()}
+        cd_res = {k: f.result() for k, f in f_cd.items()}
     for (name, exp, kw), res in zip(runs, results):
         ctx.require_tlc_ok(f'SftpIO {name} {kw}', res, expect_violation=exp)
 
@@ -1015,6 +1049,21 @@ def main(ctx):
                        'READ (must violate ReadComplete)', lim_res['single'],
                        expect_violation='ReadComplete')
     limits_replay(ctx, lim_res['table'], rnd, quick)
+
+    # ---- 8. copy-data: the ranged copy done by the server -------------------
+    cd_table, cd_rows = cd_res['table']
+    ctx.require_tlc_ok('CopyData every case', cd_table)
+    ctx.require_tlc_ok('CopyData where a remaining length of 0 means "to the '
+                       'end" in every iteration (must violate CopyExact)',
+                       cd_res['zero'], expect_violation='CopyExact')
+    ctx.require_tlc_ok('CopyData advancing by what was read without stopping '
+                       'at the end of the file (must violate ChunkProgress)',
+                       cd_res['noprog'], expect_violation='ChunkProgress')
+    ctx.require(len(cd_rows) > 1000, f'copy-data table: {len(cd_rows)} rows')
+    st = sftp_copydata.replay(ctx, cd_rows, 2,
+                              {'CopyExact', 'CopyDataWork', 'ChunkProgress'},
+                              quick, rnd, 'c12', stride=2)
+    ctx.traces_validated(st['rows'] + st['api'])
 
     ctx.assumptions += [
         'recorded transfers: linearization points are taken in the client by '
